@@ -44,6 +44,7 @@ type lsNode struct {
 	term, vote, commit            uint64
 	hasState                      bool
 	terms                         map[uint64]uint64
+	bornAt                        uint64 // a replica re-created after RemoveNodeData starts from a snapshot at this index
 }
 
 type jLE [4]uint64 // index, term, val, size
@@ -364,6 +365,17 @@ func (s *lsSim) genUpdate(k int) (pb.Update, jUp) {
 	ju := jUp{N: k, Ents: []jLE{}}
 	c := s.rng.Intn(100)
 	switch {
+	case n.bornAt > 0 && !n.hasState && s.forceCnt == 0:
+		// the replica was removed from this host and is created again: it is brought up to date by a snapshot
+		// at an index that has nothing to do with where its earlier log ended
+		idx := n.bornAt
+		n.bornAt = 0
+		n.lastTerm++
+		ud.Snapshot = pb.Snapshot{Index: idx, Term: n.lastTerm, Type: pb.RegularStateMachine}
+		ju.Ss, ju.SsT = idx, n.lastTerm
+		n.last, n.floor, n.ss, n.rm = idx, idx, idx, idx
+		n.terms = map[uint64]uint64{}
+		n.commit = idx
 	case (c < 6 || s.forceSnap) && n.hasState && s.forceCnt == 0: // a restored snapshot: the log restarts at its index
 		idx := n.last + 1 + uint64(s.rng.Intn(4))
 		if os.Getenv("VERIF_LS_INNER") != "" && n.last > n.commit && s.rng.Intn(2) == 0 {
@@ -771,7 +783,14 @@ func (s *lsSim) run(steps int) {
 				if err := s.db.RemoveNodeData(n.Shard, n.Replica); err != nil {
 					panic(err)
 				}
+				oldLast := n.last
 				*n = lsNode{Shard: n.Shard, Replica: n.Replica, lastTerm: 1, terms: map[uint64]uint64{}}
+				if s.rng.Intn(2) == 0 {
+					n.bornAt = 1 + uint64(s.rng.Intn(int(oldLast)+4))
+					if d := uint64(s.rng.Intn(6)); d < 3 && oldLast > d {
+						n.bornAt = oldLast - d // close to where the earlier log ended (same entry batch)
+					}
+				}
 				s.emit(jLsEv{Op: "RemoveNode", N: k, Panels: s.panels([]int{k})})
 			}
 		case c < 87 && n.hasState && (s.flavour == "tan" || s.flavour == "plain" || s.flavour == "batched") && os.Getenv("VERIF_LS_NOIMPORT") == "":
